@@ -473,7 +473,7 @@ class FunTranslator:
                 for v in self.assigned(s.body) + self.assigned(s.orelse):
                     if v not in out:
                         out.append(v)
-            elif isinstance(s, ast.For):
+            elif isinstance(s, (ast.For, ast.While)):
                 for v in self.assigned(s.body):
                     if v not in out:
                         out.append(v)
@@ -556,6 +556,8 @@ class FunTranslator:
                 if ty is None:
                     U(s, f"type of empty list {name} unknown")
             coq = x.coq
+            if name not in env and self.ctx.param_types.get(name) == "optint":
+                env[name] = "optint"
             if env.get(name) == "optint" and ty == "int":
                 ty, coq = "optint", f"(Some {x.coq})"
             if env.get(name) == "optint" and ty == "none":
@@ -582,6 +584,8 @@ class FunTranslator:
             return self.if_stmt(s, env, rest, tail)
         if isinstance(s, ast.For):
             return self.for_stmt(s, env, k)
+        if isinstance(s, ast.While):
+            return self.while_stmt(s, env, k)
         U(s, "statement kind not in whitelist")
 
     def local_fun(self, s, env, k):
@@ -750,6 +754,42 @@ class FunTranslator:
         bindpat = pat if len(vs) == 1 else "'" + pat
         return pre + f"{bindpat} <- (if {c.coq} then (\n{ind(a)}\n) else (\n{ind(b)}\n)) ;;\n" + self.block(rest, env, tail)
 
+    def while_stmt(self, s, env, k):
+        """while c: body  ->  bounded iteration (fuel from the vocabulary; running out of fuel is an
+        explicit error value that the theorems must exclude)"""
+        if s.orelse:
+            U(s, "while/else")
+        fuel = self.ctx.vocab.get("while_fuel")
+        if fuel is None:
+            U(s, "while loop (no fuel configured)")
+        vs = [v for v in self.assigned(s.body) if v in env]
+        if not vs:
+            U(s, "loop mutates nothing")
+        pat = tup([cname(v) for v in vs])
+        lam_pat = pat if len(vs) == 1 else "'" + pat
+        accty = " * ".join(COQ_TYPES[env[v]] for v in vs)
+        c = self.expr(s.test, env)
+        if c.ty != "bool":
+            U(s, "while condition")
+        cond = self.emit_pre(c.pre) + f"Ok {c.coq}"
+
+        def t(env2):
+            for v in vs:
+                if env2[v] != env[v]:
+                    raise Untranslatable(f"line {s.lineno}: loop changes the type of {v}")
+            return "Ok " + pat
+
+        body = self.block(s.body, dict(env), t)
+        bindpat = pat if len(vs) == 1 else "'" + pat
+        return (
+            f"{bindpat} <- mwhile {fuel}%nat\n"
+            + ind(f"(fun (acc_ : {accty}) =>\n" + ind(f"let {lam_pat} := acc_ in\n" + cond) + ")\n")
+            + "\n"
+            + ind(f"(fun (acc_ : {accty}) =>\n" + ind(f"let {lam_pat} := acc_ in\n" + body) + ")\n")
+            + f"\n  {pat} ;;\n"
+            + k(env)
+        )
+
     def for_stmt(self, s, env, k):
         if s.orelse or not isinstance(s.target, ast.Name):
             U(s, "for form")
@@ -815,11 +855,14 @@ def ind(s):
     return textwrap.indent(s, "  ")
 
 
-def translate_function(path, qualname, outname, param_types=None, vocab=None):
-    """returns (coq_text, error_or_None); on error coq_text defines src_<outname> : unit."""
+def translate_function(path, qualname, outname, param_types=None, vocab=None, rewrite=None):
+    """returns (coq_text, error_or_None); on error coq_text defines src_<outname> : unit.
+    rewrite: optional function FunctionDef -> FunctionDef (extracts a snippet as a function)"""
     try:
         tree = ast.parse(open(path).read())
         fn = find_function(tree, qualname)
+        if rewrite is not None:
+            fn = rewrite(fn)
         ctx = Ctx(outname, param_types, vocab)
         return FunTranslator(ctx).function(fn), None
     except Untranslatable as ex:
